@@ -12,6 +12,22 @@ crypto_aesctr*.c take from the C text.
 (The control flow of crypto_aesctr_shared.c / crypto_aesctr_aesni.c is modelled by hand and bound by the
 correspondence run; no shape is demanded of those functions here, so that a behaviour-preserving
 rewrite of them does not disturb the tie.)
+
+Second output file Repo_aes_sel.v: the IMPLEMENTATION SELECTION of the two modules as data, for the
+build configuration with CPUSUPPORT_X86_AESNI defined (the #if/#ifdef lines are evaluated here) and
+for the configuration with no CPU feature defined:
+  cpusupport.h         the body of CPUSUPPORT_VALIDATE (text, whitespace removed)
+  crypto_aes.c         hwaccel's initialiser; hwaccel_init as a statement list (latch, default,
+                       CPUSUPPORT_VALIDATE(hwaccel, VALUE, cpu predicate, self-test), abort-if);
+                       crypto_aes_can_use_intrinsics / _key_expand / _encrypt_block as dispatch lists
+                       (call hwaccel_init; if (hwaccel == V) -> result; default result)
+  crypto_aesctr.c      hwaccel's initialiser; hwaccel_init as a statement list (the switch is emitted
+                       with its SCRUTINEE TEXT and one entry per case; an `if (P) hwaccel = V;` is
+                       emitted with the text of P); whether crypto_aesctr_init2 calls hwaccel_init;
+                       crypto_aesctr_stream as a dispatch list (condition text + hwaccel value ->
+                       callee)
+A statement the translator has no form for is emitted as kind 0 with its text: the Gallina
+interpreter (Crypto/AesSelect.v) answers Fault for it, so the proofs break instead of the extraction.
 """
 import re
 
@@ -96,6 +112,287 @@ def struct_vector(text, field):
     if not m:
         raise NotFound("test vector field " + field)
     return [int_literal(t) for t in (x.strip() for x in m.group(1).split(",")) if t]
+
+
+# ---------------------------------------------------------------------------- selection logic
+
+def preprocess(src, defined):
+    """Evaluate the conditional-compilation lines of (comment-free) C text for the macro set
+    `defined`: #if / #elif over defined(X) with ! && || and parentheses, #ifdef, #ifndef, #else,
+    #endif; an active object-like `#define NAME` with empty body adds NAME.  Other directives and
+    text of active regions are kept, inactive regions are dropped."""
+    defined = set(defined)
+    out, stack = [], []          # stack of [parent_active, this_branch_active, some_branch_taken]
+    lines = src.split("\n")
+    i = 0
+
+    def active():
+        return all(f[0] and f[1] for f in stack)
+
+    def cond(expr):
+        e = re.sub(r"defined\s*\(\s*(\w+)\s*\)|defined\s+(\w+)",
+                   lambda m: " True " if (m.group(1) or m.group(2)) in defined else " False ", expr)
+        e = e.replace("&&", " and ").replace("||", " or ").replace("!", " not ")
+        if not re.fullmatch(r"[\s()]*(?:(?:True|False|and|or|not)[\s()]*)+", e):
+            raise NotFound("preprocessor condition not understood: " + expr.strip())
+        return bool(eval(e, {"__builtins__": {}}))
+
+    while i < len(lines):
+        line = lines[i]
+        full = line
+        while full.rstrip().endswith("\\") and i + 1 < len(lines):
+            i += 1
+            full += "\n" + lines[i]
+        i += 1
+        m = re.match(r"\s*#\s*(\w+)\b(.*)$", line, flags=re.S)
+        if not m:
+            if active():
+                out.append(full)
+            continue
+        d, rest = m.group(1), m.group(2)
+        if d in ("if", "ifdef", "ifndef"):
+            par = active()
+            if d == "if":
+                v = cond(rest) if par else False
+            else:
+                v = (rest.strip() in defined) == (d == "ifdef")
+            stack.append([True, v, v])
+        elif d == "elif":
+            if not stack:
+                raise NotFound("#elif without #if")
+            f = stack[-1]
+            v = (not f[2]) and cond(rest)
+            f[1] = v
+            f[2] = f[2] or v
+        elif d == "else":
+            if not stack:
+                raise NotFound("#else without #if")
+            f = stack[-1]
+            f[1] = not f[2]
+            f[2] = True
+        elif d == "endif":
+            if not stack:
+                raise NotFound("#endif without #if")
+            stack.pop()
+        elif active():
+            dm = re.match(r"\s*#\s*define\s+(\w+)\s*$", line)
+            if dm:
+                defined.add(dm.group(1))
+            out.append(full)
+    if stack:
+        raise NotFound("unterminated #if")
+    return "\n".join(out)
+
+
+def balanced(text, i, open_c="(", close_c=")"):
+    """text[i] == open_c: index just past the matching close_c."""
+    if i >= len(text) or text[i] != open_c:
+        raise NotFound("expected '%s'" % open_c)
+    depth = 0
+    for j in range(i, len(text)):
+        if text[j] == open_c:
+            depth += 1
+        elif text[j] == close_c:
+            depth -= 1
+            if depth == 0:
+                return j + 1
+    raise NotFound("unbalanced '%s'" % open_c)
+
+
+def top_level_args(text):
+    args, depth, cur = [], 0, ""
+    for ch in text:
+        if ch in "([{":
+            depth += 1
+        elif ch in ")]}":
+            depth -= 1
+        if ch == "," and depth == 0:
+            args.append(cur)
+            cur = ""
+        else:
+            cur += ch
+    args.append(cur)
+    return [squeeze(a) for a in args]
+
+
+def strip_parens(e):
+    e = squeeze(e)
+    while e.startswith("(") and balanced(e, 0) == len(e):
+        e = e[1:-1]
+    return e
+
+
+# statement kinds of an hwaccel_init body (interpreted by Crypto/AesSelect.v: run_init)
+K_UNKNOWN, K_LATCH, K_ASSIGN, K_VALIDATE, K_ABORT_IF, K_CASE, K_CASE_NOP, K_DEFAULT_ASSERT, K_IF_ASSIGN = range(9)
+# entries of a dispatching function (AesSelect.v: dispatch)
+D_UNKNOWN, D_INIT, D_IF_HW, D_DEFAULT = 20, 21, 22, 23
+
+
+def init_statements(body, var="hwaccel"):
+    """hwaccel_init body -> [(kind, hw value, expression text, number)]"""
+    out, i = [], 0
+    v = re.escape(var)
+    while True:
+        while i < len(body) and body[i].isspace():
+            i += 1
+        if i >= len(body):
+            return out
+        rest = body[i:]
+        m = re.match(r"if\s*\(\s*%s\s*!=\s*(\w+)\s*\)\s*return\s*;" % v, rest)
+        if m:
+            out.append((K_LATCH, m.group(1), "", 0)); i += m.end(); continue
+        m = re.match(r"%s\s*=\s*(\w+)\s*;" % v, rest)
+        if m:
+            out.append((K_ASSIGN, m.group(1), "", 0)); i += m.end(); continue
+        m = re.match(r"CPUSUPPORT_VALIDATE\s*(?=\()", rest)
+        if m:
+            j = balanced(rest, m.end())
+            args = top_level_args(rest[m.end() + 1:j - 1])
+            m2 = re.match(r"\s*;", rest[j:])
+            if len(args) == 4 and args[0] == var and m2:
+                out.append((K_VALIDATE, args[1], args[2] + "\0" + args[3], 0)); i += j + m2.end(); continue
+        m = re.match(r"switch\s*(?=\()", rest)
+        if m:
+            j = balanced(rest, m.end())
+            scrut = strip_parens(rest[m.end():j])
+            m2 = re.match(r"\s*(?=\{)", rest[j:])
+            if m2:
+                k = balanced(rest, j + m2.end(), "{", "}")
+                inner = rest[j + m2.end() + 1:k - 1]
+                pos, entries, ok = 0, [], True
+                while True:
+                    m3 = re.match(r"\s*case\s+(\w+)\s*:\s*(?:%s\s*=\s*(\w+)\s*;)?\s*break\s*;" % v, inner[pos:])
+                    if m3:
+                        if m3.group(2):
+                            entries.append((K_CASE, m3.group(2), scrut, int_literal(m3.group(1))))
+                        else:
+                            entries.append((K_CASE_NOP, "", scrut, int_literal(m3.group(1))))
+                        pos += m3.end(); continue
+                    m3 = re.match(r"\s*default\s*:\s*assert\s*\(\s*0\s*\)\s*;", inner[pos:])
+                    if m3:
+                        entries.append((K_DEFAULT_ASSERT, "", scrut, 0)); pos += m3.end(); continue
+                    ok = not inner[pos:].strip()
+                    break
+                if ok:
+                    out += entries; i += k; continue
+        m = re.match(r"if\s*(?=\()", rest)
+        if m:
+            j = balanced(rest, m.end())
+            pred = strip_parens(rest[m.end():j])
+            m2 = re.match(r"\s*%s\s*=\s*(\w+)\s*;" % v, rest[j:])
+            if m2:
+                out.append((K_IF_ASSIGN, m2.group(1), pred, 0)); i += j + m2.end(); continue
+            m2 = re.match(r"\s*(?=\{)", rest[j:])
+            if m2:
+                k = balanced(rest, j + m2.end(), "{", "}")
+                blk = rest[j + m2.end() + 1:k - 1]
+                if re.search(r"\babort\s*\(\s*\)\s*;\s*$", blk) and var not in blk:
+                    out.append((K_ABORT_IF, "", pred, 0)); i += k; continue
+        # no form for this statement: emit its text
+        m = re.match(r"[^;{]*(;|\{)", rest)
+        if m and m.group(1) == "{":
+            j = balanced(rest, m.end() - 1, "{", "}")
+        else:
+            j = m.end() if m else len(rest)
+        out.append((K_UNKNOWN, "", squeeze(rest[:j]), 0)); i += j
+
+
+def dispatch_entries(body, default_rx, default_name, var="hwaccel"):
+    """A function that tests hwaccel: the calls of hwaccel_init() and the `if (.. hwaccel == V ..)`
+    statements in source order, then what the fall-through code does."""
+    ev = []
+    for m in re.finditer(r"\bhwaccel_init\s*\(\s*\)\s*;", body):
+        ev.append((m.start(), (D_INIT, "", "", "")))
+    last = 0
+    for m in re.finditer(r"\bif\s*(?=\()", body):
+        j = balanced(body, m.end())
+        c = strip_parens(body[m.end():j])
+        if var not in c:
+            continue
+        parts = [strip_parens(p) for p in re.split(r"&&", c)]
+        hws = [p for p in parts if re.fullmatch(r"%s==\w+" % re.escape(var), p)]
+        others = [p for p in parts if p not in hws]
+        tail = body[j:]
+        m2 = re.match(r"\s*return\s*\(?\s*(\w+)", tail) or re.match(r"\s*\{\s*(\w+)\s*\([^;]*;\s*return\s*;\s*\}", tail)
+        if len(hws) == 1 and len(others) <= 1 and "||" not in c and m2:
+            ev.append((m.start(), (D_IF_HW, hws[0].split("==")[1], m2.group(1), others[0] if others else "")))
+            last = max(last, j + m2.end())
+        else:
+            ev.append((m.start(), (D_UNKNOWN, "", squeeze(body[m.start():j]), "")))
+    ev.sort()
+    out = [e for _, e in ev]
+    if re.search(default_rx, body[last:], flags=re.S):
+        out.append((D_DEFAULT, "", default_name, ""))
+    else:
+        out.append((D_UNKNOWN, "", "fall-through code", ""))
+    return out
+
+
+def coq_prog(name, entries):
+    """list (N * list N * list N * list N * N): (kind, hwaccel value, text, text2, number)"""
+    rows = []
+    for e in entries:
+        kind, hw, a, b = e
+        if isinstance(b, int):
+            t2, num = "", b
+        else:
+            t2, num = b, 0
+        if kind == K_VALIDATE:
+            a, t2 = a.split("\0")
+        rows.append("(%d%%N, %s, %s, %s, %d%%N)" % (kind, coq_text(hw), coq_text(a), coq_text(t2), num))
+    return "Definition %s : list (N * list N * list N * list N * N) :=\n  [%s].\n" % (name, ";\n   ".join(rows))
+
+
+def coq_text(s):
+    """a short C text as list N, with the text itself in a comment"""
+    safe = s.replace("(*", "( *").replace("*)", "* )").replace('"', "'")
+    return "(%s (* %s *))" % (coq_list_N(list(s.encode()), per_line=32), safe) if s else "[]"
+
+
+def static_init(src, var="hwaccel"):
+    m = re.search(r"\}\s*%s\s*=\s*(\w+)\s*;" % re.escape(var), src)
+    if not m:
+        raise NotFound("initialiser of static " + var)
+    return m.group(1)
+
+
+def selection(repo):
+    cs = strip_comments(read(repo, "cpusupport/cpusupport.h"))
+    aes0 = strip_comments(read(repo, "crypto/crypto_aes.c"))
+    ctr0 = strip_comments(read(repo, "crypto/crypto_aesctr.c"))
+    out = HEADER
+    out += "(* cpusupport.h: #define CPUSUPPORT_VALIDATE(hwvar, success_value, cpusupport_checks, check) *)\n"
+    out += "Definition validate_macro : list N :=\n  %s.\n" % coq_text(squeeze(macro_body(cs, "CPUSUPPORT_VALIDATE")))
+    for tag, defined in (("ni", {"CPUSUPPORT_X86_AESNI"}), ("none", set())):
+        aes, ctr = preprocess(aes0, defined), preprocess(ctr0, defined)
+        out += "\n(* ---- build configuration: %s *)\n" % (", ".join(sorted(defined)) or "no CPUSUPPORT_* feature macro")
+        hw = "HWACCEL" in re.findall(r"#\s*define\s+(\w+)\s*$", aes, flags=re.M)
+        if hw:
+            out += "Definition %s_aes_unset : list N := %s.\n" % (tag, coq_text(static_init(aes)))
+            out += coq_prog("%s_aes_init" % tag, init_statements(func_body(aes, "hwaccel_init")))
+        else:
+            out += "Definition %s_aes_unset : list N := [].\n" % tag
+            out += coq_prog("%s_aes_init" % tag, [])
+        out += coq_prog("%s_aes_can_use" % tag, dispatch_entries(func_body(aes, "crypto_aes_can_use_intrinsics"),
+                                                                  r"\breturn\s*\(\s*0\s*\)\s*;\s*$", "0"))
+        out += coq_prog("%s_aes_key_expand" % tag, dispatch_entries(func_body(aes, "crypto_aes_key_expand"),
+                                                                     r"\bAES_set_encrypt_key\s*\(", "AES_set_encrypt_key"))
+        out += coq_prog("%s_aes_encrypt_block" % tag, dispatch_entries(func_body(aes, "crypto_aes_encrypt_block"),
+                                                                        r"\bAES_encrypt\s*\([^;]*;\s*$", "AES_encrypt"))
+        hwc = "HWACCEL" in re.findall(r"#\s*define\s+(\w+)\s*$", ctr, flags=re.M)
+        if hwc:
+            out += "Definition %s_ctr_unset : list N := %s.\n" % (tag, coq_text(static_init(ctr)))
+            out += coq_prog("%s_ctr_init" % tag, init_statements(func_body(ctr, "hwaccel_init")))
+        else:
+            out += "Definition %s_ctr_unset : list N := [].\n" % tag
+            out += coq_prog("%s_ctr_init" % tag, [])
+        out += coq_prog("%s_ctr_init2" % tag, [e for e in dispatch_entries(func_body(ctr, "crypto_aesctr_init2"), r"", "")
+                                               if e[0] != D_DEFAULT])
+        out += coq_prog("%s_ctr_stream" % tag, dispatch_entries(
+            func_body(ctr, "crypto_aesctr_stream"),
+            r"crypto_aesctr_stream_pre_wholeblock\s*\(.*crypto_aesctr_stream_cipherblock_generate\s*\(.*"
+            r"crypto_aesctr_stream_post_wholeblock\s*\(", "portable"))
+    return out
 
 
 def extract(repo):
@@ -203,4 +500,4 @@ def extract(repo):
     out += coq_calls("free_calls_key_sw", wipe_calls(kf))
     out += "Definition alloc_expr_ctr : list N :=\n  %s.\n" % coq_str(malloc_expr(func_body(ctr, "crypto_aesctr_alloc")))
     out += coq_calls("free_calls_ctr", wipe_calls(func_body(ctr, "crypto_aesctr_free")))
-    return {"Repo_aes.v": out}
+    return {"Repo_aes.v": out, "Repo_aes_sel.v": selection(repo)}
